@@ -277,8 +277,8 @@ def gen_tables() -> str:
     w(f"def gcHeadBases : List Nat := {lst(g['head'])}")
     w(f"def gcOtherComparisons : List String := [{', '.join(lean_str(x) for x in g['other'])}]")
     w(f"def gcGuard : String := {lean_str(g['guard'])}")
-    w("def gcWrapperBase : Nat := gcWrapperBases.headD 0")
-    w("def gcDocumentIdle : Nat := gcDocumentIdles.headD 0")
+    w("def gcWrapperBase : Nat := gcWrapperBases.foldl min (gcWrapperBases.headD 0)")
+    w("def gcDocumentIdle : Nat := gcDocumentIdles.foldl min (gcDocumentIdles.headD 0)")
     w("def gcAppendedBase : Nat := gcAppendedBases.foldl min (gcAppendedBases.headD 0)")
     w("def gcHeadBase : Nat := gcHeadBases.foldl min (gcHeadBases.headD 0)")
     w("")
@@ -288,11 +288,25 @@ def gen_tables() -> str:
 
 def gc_thresholds():
     """The comparisons of `_WrapperCache.__gc_callback__`, read from the source text (ast): every
-    `getrefcount(X) > <expr>` / `getrefcount(X) == <int>`; the integer literal of <expr> is the structural base."""
+    `getrefcount(X) > <expr>` / `getrefcount(X) == <expr>`; the first integer of <expr> (a literal, or a name that a
+    module-level assignment binds to an integer literal) is the structural base. The comparisons are classified by what
+    they look at, not by how the local variables are called: the wrapper is the value variable of the loop over
+    `self.wrappers.items()`, its document is `<wrapper>.__document__`, a head text node is one whose own
+    `_appended_text_node` appears on the right-hand side (or that is called tail_node/data_node), every other text node
+    is an appended one."""
     import ast as pyast
 
     src = (REPO / "_delb" / "nodes.py").read_text()
     tree = pyast.parse(src)
+    consts = {}
+    for st in tree.body:
+        tgt = val = None
+        if isinstance(st, pyast.Assign) and len(st.targets) == 1 and isinstance(st.targets[0], pyast.Name):
+            tgt, val = st.targets[0].id, st.value
+        elif isinstance(st, pyast.AnnAssign) and isinstance(st.target, pyast.Name) and st.value is not None:
+            tgt, val = st.target.id, st.value
+        if tgt and isinstance(val, pyast.Constant) and isinstance(val.value, int) and not isinstance(val.value, bool):
+            consts[tgt] = val.value
     fn = None
     for cls in pyast.walk(tree):
         if isinstance(cls, pyast.ClassDef) and cls.name == "_WrapperCache":
@@ -303,32 +317,51 @@ def gc_thresholds():
     if fn is None:
         return out
 
-    def const_of(e):
-        ints = [n.value for n in pyast.walk(e) if isinstance(n, pyast.Constant) and isinstance(n.value, int) and not isinstance(n.value, bool)]
-        return ints
+    def ints_of(e):
+        """integers of an expression in source order, not descending into nested comparisons (their literals belong
+        to the comparison they are in)"""
+        found = []
 
-    def arg_name(call):
-        a = call.args[0]
-        return pyast.unparse(a)
+        def visit(n, top):
+            if isinstance(n, pyast.Compare) and not top:
+                return
+            if isinstance(n, pyast.Constant) and isinstance(n.value, int) and not isinstance(n.value, bool):
+                found.append(n.value)
+            elif isinstance(n, pyast.Name) and n.id in consts:
+                found.append(consts[n.id])
+            for c in pyast.iter_child_nodes(n):
+                visit(c, False)
 
+        visit(e, True)
+        return found
+
+    wrapper_var = "node"
+    for n in pyast.walk(fn):
+        if isinstance(n, pyast.For) and "wrappers.items()" in pyast.unparse(n.iter) and isinstance(n.target, pyast.Tuple) \
+                and len(n.target.elts) == 2 and isinstance(n.target.elts[1], pyast.Name):
+            wrapper_var = n.target.elts[1].id
+            break
     for n in pyast.walk(fn):
         if isinstance(n, pyast.Compare) and isinstance(n.left, pyast.Call) and getattr(n.left.func, "id", "") == "getrefcount":
-            who = arg_name(n.left)
+            who = pyast.unparse(n.left.args[0])
             op = type(n.ops[0]).__name__
             rhs = n.comparators[0]
-            if who == "node" and op == "Gt":
-                # 4 + isinstance(...) + (… and getrefcount(node.__document__) == 4): own literal = the first
-                out["wrapper"].append(const_of(rhs)[0] if const_of(rhs) else 0)
-            elif who == "node.__document__" and op == "Eq":
-                out["document"].append(const_of(rhs)[0] if const_of(rhs) else 0)
-            elif who == "current" and op == "Gt":
-                out["appended"].append(const_of(rhs)[0] if const_of(rhs) else 0)
-            elif who in ("tail_node", "data_node") and op == "Gt":
-                out["head"].append(const_of(rhs)[0] if const_of(rhs) else 0)
+            base = (ints_of(rhs) or [0])[0]
+            if who == wrapper_var and op == "Gt":
+                out["wrapper"].append(base)
+            elif who == f"{wrapper_var}.__document__" and op == "Eq":
+                out["document"].append(base)
+            elif op == "Gt" and (who in ("tail_node", "data_node") or f"{who}._appended_text_node" in pyast.unparse(rhs)):
+                out["head"].append(base)
+            elif op == "Gt":
+                out["appended"].append(base)
             else:
                 out["other"].append(f"{who} {op}")
     first = fn.body[1] if isinstance(fn.body[0], pyast.Expr) else fn.body[0]
-    out["guard"] = pyast.unparse(first.test) if isinstance(first, pyast.If) else ""
+    if isinstance(first, pyast.If) and isinstance(first.test, pyast.BoolOp) and isinstance(first.test.op, pyast.Or):
+        out["guard"] = " or ".join(sorted(pyast.unparse(v) for v in first.test.values))
+    else:
+        out["guard"] = pyast.unparse(first.test) if isinstance(first, pyast.If) else ""
     return out
 
 
